@@ -61,6 +61,34 @@ def run(tier):
     vc = gen.value_classes()
     tmp = common.scratch("c14")
     cases = []
+    # two writers in one process: the FIRST document ever written for a record type is indented, a later file is not --
+    # the later file must still be one document per line (nothing of the first writer's settings may stick)
+    from flow.record import RecordDescriptor as _RD
+
+    for T in ("string", "varint", "datetime"):
+        Dn = _RD("js/indentfirst_" + T, [(T, "f"), ("string", "tail")])
+        rec = Dn(None, "t", _generated=gen.GEN)
+        for indent in (2, 0, 4, 0):
+            url = "jsonfile://" + os.path.join(tmp, "o.json") + "?descriptors=true" + (f"&indent={indent}" if indent else "")
+            c = {"T": T, "islist": False, "label": "seq:indent-first", "isnone": True, "descriptors": True, "indent": indent, "raised": False, "exc": "none", "identical": True,
+                 "all_docs_parse": False, "one_doc_per_line": False, "doc_kinds": [], "record_keys": ["f", "tail", "_source", "_classification", "_generated", "_version", "_type", "_recorddescriptor"],
+                 "shape": "null", "scalars_equal": True, "plain_checked": False, "plain_type": "?", "plain_shape": "?"}
+            try:
+                with RecordWriter(url) as w:
+                    w.write(rec)
+                text = open(os.path.join(tmp, "o.json"), encoding="utf-8").read()
+                docs = docs_of(text)
+                c["all_docs_parse"] = True
+                lines = [l for l in text.split("\n") if l != ""]
+                try:
+                    c["one_doc_per_line"] = len(lines) == len(docs) and all(json.loads(l) == dd for l, dd in zip(lines, docs))
+                except Exception:
+                    c["one_doc_per_line"] = False
+                c["doc_kinds"] = [dd.get("_type", "record") if isinstance(dd, dict) else "?" for dd in docs]
+            except Exception as e:
+                c["raised"], c["exc"] = True, type(e).__name__ + ":" + str(e)[:60]
+            cases.append(c)
+            ctx.case(("indent-first", T, indent))
     for T in SUPPORTED:
         for islist in ((False, True) if T in gen.LISTABLE else (False,)):
             tn = T + ("[]" if islist else "")
